@@ -204,40 +204,49 @@ def _ast_csv_facts():
         if default is None:
             raise Unsupported("CsvfileWriter.__init__: default line terminator not found")
 
-    # for r, n in (("\\r", "\r"), ...): self.lineterminator = self.lineterminator.replace(r, n)
+    # for r, n in (("\\r", "\r"), ...): x = x.replace(r, n)  -- in __init__ or in a module-level / private helper it calls
+    # (one level); the table may be a literal, a module constant, a dict (.items()).  None = not recognised.
+    mod = ast.parse(inspect.getsource(csvfile))
+    modfns = {n.name: n for n in mod.body if isinstance(n, ast.FunctionDef)}
+    scope = [init] + [modfns[c.func.id] for c in _calls(init) if isinstance(c.func, ast.Name) and c.func.id in modfns]
+
+    def pairs_of(it):
+        val = None
+        if isinstance(it, ast.Call) and isinstance(it.func, ast.Attribute) and it.func.attr == "items" and not it.args \
+                and isinstance(it.func.value, ast.Name):
+            val = getattr(csvfile, it.func.value.id, None)
+            val = list(val.items()) if isinstance(val, dict) else None
+        elif isinstance(it, ast.Name):
+            val = getattr(csvfile, it.id, None)
+            val = list(val.items()) if isinstance(val, dict) else list(val) if isinstance(val, (tuple, list)) else None
+        elif isinstance(it, (ast.Tuple, ast.List)):
+            try:
+                val = list(ast.literal_eval(it))
+            except Exception:
+                val = None
+        elif isinstance(it, ast.Dict):
+            try:
+                val = list(ast.literal_eval(it).items())
+            except Exception:
+                val = None
+        if val is None or not all(isinstance(p, tuple) and len(p) == 2 and all(isinstance(x, str) for x in p) for p in val):
+            return None
+        return val
+
     repl = None
-    for n in ast.walk(init):
-        if isinstance(n, ast.For):
-            tgt = n.target
-            if not (isinstance(tgt, ast.Tuple) and len(tgt.elts) == 2 and all(isinstance(e, ast.Name) for e in tgt.elts)):
-                continue
-            a, b = tgt.elts[0].id, tgt.elts[1].id
-            rc = [c for c in _calls(n) if isinstance(c.func, ast.Attribute) and c.func.attr == "replace"]
-            if not rc:
-                continue
-            if len(rc) != 1 or len(rc[0].args) != 2 or not all(isinstance(x, ast.Name) for x in rc[0].args) \
-                    or [x.id for x in rc[0].args] != [a, b]:
-                raise Unsupported("CsvfileWriter.__init__: replacement loop body is not x.replace(old, new)")
-            it = n.iter
-            if isinstance(it, ast.Name):
-                val = getattr(csvfile, it.id, None)
-                pairs = list(val) if val is not None else None
-            elif isinstance(it, (ast.Tuple, ast.List)):
-                try:
-                    pairs = list(ast.literal_eval(it))
-                except Exception:
-                    pairs = None
-            else:
-                pairs = None
-            if pairs is None or not all(isinstance(p, tuple) and len(p) == 2 and all(isinstance(x, str) for x in p) for p in pairs):
-                raise Unsupported("CsvfileWriter.__init__: replacement table is not a literal sequence of string pairs")
-            if repl is not None:
-                raise Unsupported("CsvfileWriter.__init__: two replacement loops")
-            repl = pairs
-    if repl is None:
-        repl = []
-    if any(old == "" for old, _ in repl):
-        raise Unsupported("CsvfileWriter.__init__: empty pattern in replacement table")
+    loops = 0
+    for fn in scope:
+        for n in ast.walk(fn):
+            if isinstance(n, ast.For) and any(isinstance(c.func, ast.Attribute) and c.func.attr == "replace" for c in _calls(n)):
+                loops += 1
+                tgt = n.target
+                rc = [c for c in _calls(n) if isinstance(c.func, ast.Attribute) and c.func.attr == "replace"]
+                if isinstance(tgt, ast.Tuple) and len(tgt.elts) == 2 and all(isinstance(e, ast.Name) for e in tgt.elts) \
+                        and len(rc) == 1 and len(rc[0].args) == 2 and all(isinstance(x, ast.Name) for x in rc[0].args) \
+                        and [x.id for x in rc[0].args] == [tgt.elts[0].id, tgt.elts[1].id]:
+                    repl = pairs_of(n.iter)
+    if loops != 1 or (repl is not None and any(old == "" for old, _ in repl)):
+        repl = None          # no loop found / several / a spelling this recogniser does not follow: NOT recognised
 
     # write(): csv.DictWriter(fp, rdict, lineterminator=...) and the test guarding writeheader()
     wr, _ = _method_ast(W, "write")
@@ -463,6 +472,9 @@ def _is_max_len(v, concat):
 def _ast_text_facts():
     from flow.record.adapter import text
     repl = getattr(text, "REPLACE_LIST", None)
+    cls_src = ast.parse(textwrap.dedent(inspect.getsource(text.TextWriter)))
+    if not any(isinstance(n, ast.Name) and n.id == "REPLACE_LIST" for n in ast.walk(cls_src)) or not isinstance(repl, (list, tuple)):
+        repl = None          # the table the writer uses is not (recognisably) this constant
     if repl is not None:
         repl = list(repl)
         if not all(isinstance(p, tuple) and len(p) == 2 and all(isinstance(x, str) for x in p) and p[0] != "" for p in repl):
@@ -629,9 +641,10 @@ def _cross_check(name, obs, recogniser, keys, notes):
         return
     for k in keys:
         a, b = src.get(k), obs.get(k)
+        if a is None:
+            notes.append("%s: %s not recognised in the source; observed behaviour used" % (name, k))
+            continue
         if k == "repl":
-            if a is None:
-                continue
             a, b = sorted(a), sorted(b)
         if a != b:
             raise Unsupported("%s: the source says %s = %r but the writer behaves as %r" % (name, k, a, b))
@@ -651,6 +664,8 @@ def _csv_newline_check(obs, notes):
                 if nl is None and len(c.args) > 5:
                     nl = c.args[5]
                 val = ("set", nl.value) if isinstance(nl, ast.Constant) else ("set", None) if nl is None else None
+                if val is None:
+                    continue
                 if src not in (None, val):
                     raise Unsupported("CsvfileWriter: two open() calls with different newline arguments")
                 src = val
